@@ -44,6 +44,7 @@ Inductive stmt :=
  | SReturn (e : expr)
  | SRaise (cls : string)
  | STry (body : list stmt) (handlers : list (list string * list stmt))
+ | STryElse (body : list stmt) (handlers : list (list string * list stmt)) (orelse : list stmt)   (* try / except / else *)
  | SFor (x : string) (it : expr) (body : list stmt)
  | SPass
  | SAssert (e : expr)
@@ -360,6 +361,18 @@ Section Interp.
                | [] => ORaise e
                | (cl, h) :: hs' => if catches cl e then execs r h else pick hs'
                end) hs
+        | o => o
+        end
+    | STryElse body hs orelse =>
+        (* the else suite runs when the body raised nothing; what IT raises is not caught by the handlers *)
+        match execs r body with
+        | ORaise e =>
+            (fix pick (hs : list (list string * list stmt)) : outcome :=
+               match hs with
+               | [] => ORaise e
+               | (cl, h) :: hs' => if catches cl e then execs r h else pick hs'
+               end) hs
+        | ONormal r' => execs r' orelse
         | o => o
         end
     | SFor x it body =>
